@@ -121,7 +121,9 @@ def control_conditions(fa, def_blocks):
             continue
         succ = list(t["targets"]) + [t["otherwise"]]
         sets = [frozenset(fa.reachable(x, avoid={b}) & def_blocks) for x in succ if x is not None]
-        if len(set(sets)) > 1:
+        # the switch chooses *between* definitions (an edge that reaches none of them - an early
+        # error return - decides whether the value exists, not which one it is)
+        if len({x for x in sets if x}) > 1:
             out.append(t["op"])
     return out
 
